@@ -65,6 +65,17 @@ CHECKS = {
             "resolver, repetition) under seeded completion orders, plus ZerosSampler and Simulator on deterministic circuits.",
             "Flattened views only for keys measured once per repetition; data frame specified for bits only; cirq_google "
             "EngineResult / ProcessorSampler not covered.", "DESIGN.md 5/C18"),
+    "C09": ("exploration", "runtime monitor on the density-matrix simulator, channel converters, trajectories (scripted seed) and noise models; dense Kraus-sum interpreter as oracle",
+            "Noisy programs (catalogue unitaries + every library channel incl. p=0/1/tiny, resets, measurements; qubits and "
+            "qutrits; basis/pure/mixed initial states) are run on DensityMatrixSimulator (final state and every moment step, "
+            "c64/c128, split on/off) and compared with the Kraus-sum evolution computed by the reference interpreter, with "
+            "validity (Hermitian, trace 1, PSD) at each step; measurement branches are enumerated with the scripted seed; "
+            "kraus/choi/superoperator conversions, Moment/Circuit channel descriptions are compared with the reference map; "
+            "state-vector trajectories are enumerated exhaustively (mixture draws and Kraus weights observed through the "
+            "scripted uniform) and sum_paths p|psi><psi| must equal the reference rho; noise models are compared with the "
+            "documented insertion rule and with circuit.with_noise.",
+            "<=4 wires; Kraus branches lighter than 1e-7 never forced; thermal / device-derived noise models not covered yet.",
+            "DESIGN.md 5/C09"),
 }
 
 PENDING_REASON = "check not built yet in this round; design in DESIGN.md section 5 (runtime monitor + reference oracle)"
